@@ -236,6 +236,10 @@ def run_agg(tape, prop, tier):
         in_order = mx is None or p["when"] >= mx
         if not in_order:
             res.probes["out_of_order_trade"] += 1
+        if not in_order and not p["reported"]:
+            V("out-of-order-trade-accepted", f"trade stamped {p['when']} was pushed after a trade stamped {mx} had been accepted, "
+                                             f"and was neither rejected nor reported (it ends up in a bar in arrival order)")
+            break
         if p["must"] and in_order and p["reported"]:
             V("in-order-trade-dropped", f"trade stamped {p['when']} (offset {(p['when'] - wbegin(p['when'], dur)).total_seconds():.6f} s "
                                         f"into its window) arrived at {p['at']:.6f}, before its window was flushed at "
